@@ -44,7 +44,7 @@ PROPS = {
     },
     "C04": {
         "families": ["c04"] * 3 + ["c04s"] * 3 + ["c04e"] * 2 + ["c03", "c02", "c01b", "c15"],
-        "claims": ["C04"],   # use-after-free / double free of request objects and hangs are what C04 forbids: sanitizer and watchdog hits in these families count for C04
+        "claims": ["C04", "C02:false-success", "C02:wrong-slave-data"],   # a waiter released with success (or data) that no valid exchange of its own request produced got somebody else's result; use-after-free / double free of request objects and hangs are what C04 forbids: sanitizer and watchdog hits in these families count for C04
         "runs": {"quick": 30000, "thorough": 400000},
         "level": "fault_enumeration",
         "rule": "one evaluation = one simulated run with up to 6 concurrently submitting caller threads (sendAndWait, addRequest(wait), fire-and-forget with self deletion, restarting callbacks, submissions from the bus thread's own ps_empty notification); family c04e sweeps, per base scenario, 8 device fault kinds over the I/O call positions 10,13,..,187 of the device fd. Non-trivial = at least one request was submitted and at least one fault fired or two threads were runnable at once; distinct = distinct trace hashes among those.",
